@@ -1803,6 +1803,18 @@ def stage_models(ctx, st):
         iox.close()
 
 
+# source tie: the per-argument decision of HoloPyObject._iteritems as written now
+def _src_items():
+    from harness.lib import pyobj
+    return [dict(file="holopy/core/holopy_object.py", qualname="HoloPyObject._iteritems", name="iteritems_src", fn=pyobj.iteritems)]
+
+
+def stage_srctie(ctx):
+    from harness.lib import srctie
+    ok = srctie.run(ctx, "C15", "From HV Require Import C15.Model C15.Lemmas C15.Props.\n", _src_items())
+    ctx.count("srctie:%s" % ("ok" if ok else "broken"))
+
+
 def run(ctx):
     ctx.rule = ("objects: every in-scope exported class (15 scatterer classes incl. CSG and nesting, 6 theories, 5 priors incl. "
                 "ufunc / operator derived and complex, 5 strategies, LimitOverlaps) x generated valid arguments (dyadic and extreme "
@@ -1831,7 +1843,15 @@ def run(ctx):
                     "(build/run/C15/ClassTable.v)"]
     ctx.checker_cmd = ("coqc -Q coq HV coq/C15/Props.v (after make -C coq); coqc build/run/C15/ClassTable.v "
                        "(table_ok_holds, roundtrip_for_code; regenerated each run)")
+    ctx.trusted.append("source reader harness/lib/pyobj.py (the loop body of _iteritems read as a boolean function of four facts about an "
+                       "argument; how the facts are obtained compared as text) for the source tie")
+    ctx.clauses_proved.append(
+        "source tie: the per-argument decision of HoloPyObject._iteritems (core/holopy_object.py), read from the current source text on "
+        "every run, writes an attribute exactly when the model's rule does not skip it, for every class / argument / value; a non-None "
+        "value is always written and None exactly for a set argument whose default exists and is not None "
+        "[iteritems_src_is_model, src_none_rule, iteritems_src_reads]")
     guarded(ctx, "prove", ctx.prove)
+    guarded(ctx, "source-tie", stage_srctie, ctx)
     boot.boot()
     warnings.simplefilter("ignore")
     st = {}
